@@ -15,6 +15,10 @@
 (***************************************************************************)
 EXTENDS NoiseObjects, TLC, Json
 
+(* seed-derived extras chosen by the check per run: lengths in 0..65519 and 64-bit counters as 16-digit hex strings, so that  *)
+(* a deviation confined to a length class or a counter range that the fixed grids below do not touch is still met over runs *)
+CONSTANTS RandLens, RandNonces
+
 Byte(n)        == <<"byte", n>>
 Cat(seq)       == <<"cat", seq>>
 XorPad(k, b)   == <<"xorpad", k, b>>        \* k zero-padded to BLOCKLEN, every byte xor b
@@ -75,6 +79,11 @@ Next ==
              atomic |-> [i \in 1..outs |-> Kdf(Lit("ck", cl), Lit("ikm", il), i)]])
   /\ \A n \in Nonces : \A al \in {0, 17} : \A pl \in PtLens : Emit(AeadCase(n, al, pl))
   /\ \A al \in AdLens : Emit(AeadCase(NLo(5), al, 33))
+  /\ \A h \in RandNonces : \A pl \in RandLens : Emit(AeadCase(<<"hex", h>>, 0, pl))
+  /\ \A h \in RandNonces : \A al \in RandLens : Emit(AeadCase(<<"hex", h>>, al, 7))
+  /\ \A dl \in RandLens : \A kl \in {32, 64} :
+       Emit([kind |-> "hmac", key |-> Lit("hk", kl), data |-> Lit("hd", dl),
+             expect |-> Hmac(Lit("hk", kl), Lit("hd", dl))])
   /\ Emit([kind |-> "rekey", key |-> K, expect |-> Rekey(K),
            probe |-> Aead(Rekey(K), NLo(7), Lit("ad", 3), Lit("pt", 20))])
   /\ \A nm \in {"a", "b", "c"} :
